@@ -66,7 +66,7 @@ C19_L3(c, r) ==
 \* kind "solve": r.miss, r.extra (distances in units of 1e-7 relative), r.nret
 FitTol(c) == 50 * c.den + 5        \* the fitter's vertex tolerance 0.05 plus the rounding slack of the fixed-point evaluation
 C20_Applies(c, r) ==
-    \/ c.kind = "solve"
+    \/ c.kind = "solve" /\ "nosolve" \notin DOMAIN r      \* (nosolve: the shim could not reach the root finder in this tree)
     \/ /\ c.kind = "fit" /\ WellFormed(RectSeq(c))
        /\ InRect(Pt(c.s), RectSeq(c)[1]) /\ InRect(Pt(c.e), RectSeq(c)[Len(c.rects)])
        /\ Len(r.path) >= 3                                   \* the property is about paths with >= 3 points
